@@ -154,7 +154,9 @@ fn check(case: &Case, obs: &mut Obs) -> Verdict {
                 (src[..n.min(src.len())].to_vec(), vec![], false)
             }
             Kind::Garbage(len, seed) => {
-                let l = if dl.in_place { (*len as usize % 300).max(nt) } else { *len as usize % 300 };
+                // lengths 0..300, or (top bit set) up to ~8 KiB
+                let raw = if *len & 0x8000 != 0 { (*len & 0x1fff) as usize } else { *len as usize % 300 };
+                let l = if dl.in_place { raw.max(nt) } else { raw };
                 (gen::fill(l, 7, *seed), vec![], false)
             }
             Kind::Aliased(b) => {
@@ -304,7 +306,7 @@ impl Property for P {
             gen::session_with(gen::suite_sealing_cheap()),
             prop::bool::weighted(0.2),
             start,
-            proptest::collection::vec(gen::msg(80), 1..=8),
+            proptest::collection::vec(prop_oneof![12 => gen::msg(80), 1 => gen::msg(3000)], 1..=8),
             proptest::collection::vec(delivery(), 1..=24),
         )
             .prop_map(|(sess, spy, start, pool, ops)| Case { sess, spy, start, pool, ops })
@@ -315,7 +317,7 @@ impl Property for P {
     }
     fn sweeps(&self, _tier: Tier) -> Vec<(String, Vec<Case>)> {
         let mut v = Vec::new();
-        let kinds = |x: u16| vec![Kind::Aliased((x % 64) as u8), Kind::Aliased(8), Kind::Aliased(16), Kind::Aliased(24), Kind::Aliased(32), Kind::Aliased(40), Kind::Aliased(48), Kind::Aliased(56), Kind::Aliased(63), Kind::Replay(x), Kind::Future(x), Kind::TamperCt(x), Kind::TamperTag(x as u8), Kind::WrongAad, Kind::Short((x % 16) as u8), Kind::Short(0), Kind::Garbage(40 + x % 7, x as u64), Kind::Garbage(0, 1)];
+        let kinds = |x: u16| vec![Kind::Aliased((x % 64) as u8), Kind::Aliased(8), Kind::Aliased(16), Kind::Aliased(24), Kind::Aliased(32), Kind::Aliased(40), Kind::Aliased(48), Kind::Aliased(56), Kind::Aliased(63), Kind::Replay(x), Kind::Future(x), Kind::TamperCt(x), Kind::TamperTag(x as u8), Kind::WrongAad, Kind::Short((x % 16) as u8), Kind::Short(0), Kind::Garbage(40 + x % 7, x as u64), Kind::Garbage(0, 1), Kind::Garbage(0x8000 | 1500, 3), Kind::Garbage(0x8000 | 4096, 4)];
         for start in [0u64, 1, 255, 256, 65535, u64::MAX - 2, u64::MAX - 1, u64::MAX] {
             for (k, aead) in AeadId::SEALING.into_iter().enumerate() {
                 let s = Suite { kem: KemId::X25519, kdf: KdfId::Sha256, aead };
